@@ -160,13 +160,22 @@ def run(check, tier, seed):
     # 1. tables
     try:
         changed = tables.generate()
-        changed = tables.generate_for(check) or changed
-        if changed:
-            log.append("Generated/Tables.lean changed")
     except Exception as e:
         print("INFRA-ERROR: tables: %s" % e)
         traceback.print_exc()
         return 2
+    try:
+        changed = tables.generate_for(check) or changed
+        if changed:
+            log.append("Generated/Tables.lean changed")
+    except Exception as e:
+        # The per-property table reads the constants the model mirrors from the live code objects.  If an object it
+        # pins is gone or has another shape, the tie "model constants = code constants" no longer checks: that is a
+        # broken obligation (reported, with a failing-input search), not an infrastructure error.  The previously
+        # generated table stays in place for the build.
+        broken.append({"pins": "harness/%s.py tables() cannot read the pinned constants from the code: %s: %s"
+                               % (pid.lower(), type(e).__name__, str(e)[:500])})
+        log.append("tables() failed: %s" % e)
 
     # 2. build
     build_ok, build_log, build_s = leanrun.lake_build(targets)
